@@ -337,7 +337,11 @@ class Action(object):
             if self._serializers is not None:
                 serializer = self._serializers.success
         else:
-            fields = _error_extraction.get_fields_for_exception(self._logger, exception)
+            # Copy: the extractor may hand out a dictionary it still uses
+            # (e.g. vars(exception)), and we are about to add to it.
+            fields = dict(
+                _error_extraction.get_fields_for_exception(self._logger, exception)
+            )
             fields[EXCEPTION_FIELD] = "%s.%s" % (
                 exception.__class__.__module__,
                 exception.__class__.__name__,
